@@ -283,6 +283,20 @@ def fresh(ty, base):
     return SV(ty, [z3.Const('%s.%d' % (n, i), s) for i, s in enumerate(ss)])
 
 
+def fresh_dep(ty, base, idx):
+    """fresh symbolic value that is a function of the bound variables idx (a call evaluated under a binder:
+    comprehension element, quantified spec) -- a different value for every binding"""
+    if not idx:
+        return fresh(ty, base)
+    if isinstance(ty, TTuple):
+        return _tuple_of(ty, lambda t, i: fresh_dep(t, '%s_%d' % (base, i), idx))
+    n = fresh_name(base)
+    ss = zsorts(ty)
+    dom = [x.sort() for x in idx]
+    zs = [z3.Function('%s.%d' % (n, i), *(dom + [s]))(*idx) for i, s in enumerate(ss)]
+    return SV(ty, zs[0] if len(zs) == 1 else zs)
+
+
 def named(ty, name):
     if isinstance(ty, TTuple):
         return _tuple_of(ty, lambda t, i: named(t, '%s[%d]' % (name, i)))
